@@ -62,12 +62,18 @@ def run_prop(prop, tier, work):
             if not binp: continue
             nsl = P.get("slices_by_family", {}).get(fam, P.get("slices", {})).get(tier, NCPU)
             procs = []
-            env = dict(os.environ, LC_ALL="C")
             for k in range(nsl):
+                # one counter file per slice (GCOV_PREFIX): concurrent processes merging into one .gcda lose or corrupt counts
+                sd = os.path.join(d, "s%d" % k); os.makedirs(sd, exist_ok=True)
+                env = dict(os.environ, LC_ALL="C", GCOV_PREFIX=sd, GCOV_PREFIX_STRIP="99")
                 procs.append(subprocess.Popen([binp, "--seed", os.environ.get("VERIF_SEED", "1"), "--tier", tier, "--prop", prop, "--slice", "%d/%d" % (k, nsl)],
                                               stdout=subprocess.DEVNULL, stderr=subprocess.DEVNULL, env=env, cwd=d))
                 while sum(1 for p in procs if p.poll() is None) >= NCPU: time.sleep(0.05)
             for p in procs: p.wait()
+            for k in range(nsl):
+                sd = os.path.join(d, "s%d" % k)
+                for g in glob.glob(os.path.join(d, "*.gcno")): shutil.copy(g, sd)
+            for g in glob.glob(os.path.join(d, "*.gcda")): os.unlink(g)
             for f, ls in gcov_lines(d, d).items():
                 t = total.setdefault(f, {})
                 for l, c in ls.items(): t[l] = t.get(l, 0) + c
